@@ -15,6 +15,7 @@ import ApiFu.C13.PropsExecute
 import ApiFu.C01.PropsFromC04
 import ApiFu.C13.PipelineLemmas
 import ApiFu.C13.ExecClosed
+import ApiFu.C13.ExecWf
 
 set_option linter.unusedSimpArgs false
 
@@ -94,6 +95,15 @@ theorem exec_seen_closed (edec : ExecDeco) (S : Schema) (F : Feats) (hA : Accept
     (execSeen edec S F).closedCheck = true :=
   closedCheck_execSeen edec hA
 
+/-- **exec_seen_wf** — C01's `wfCheck` (unique type names; an object type implementing an interface has the
+    interface's fields, with covariant types: every runtime object type of the object's field type is a possible
+    type of the interface's field type) holds for the schema as the executor sees it under any feature set:
+    `satisfyInterface` gives a field at most as gated as the interface's, of a sub-type, and the construction rule
+    makes both field types visible. -/
+theorem exec_seen_wf (edec : ExecDeco) (S : Schema) (F : Feats) (hA : Accepted S = true) :
+    (execSeen edec S F).wfCheck = true :=
+  wfCheck_execSeen edec hA
+
 /-- The erased schema's query root is ungated when the schema's is. -/
 theorem rootsUngated_erase {S : Schema} {F : Feats} (hA : Accepted S = true) (hR : RootsUngated S = true) :
     RootsUngated (erase S F) = true := by
@@ -108,15 +118,14 @@ theorem rootsUngated_erase {S : Schema} {F : Feats} (hA : Accepted S = true) (hR
     specification) defines for the ERASED schema: the same data, required ⊆ reported ⊆ possible errors, each
     required error once (C01's `Agrees`); and that reference answer is unique. The remaining hypotheses are
     those of C01's `exec_correct_validated`, on the erased description: C04's input hypotheses for the
-    document, distinct node positions and non-empty keys (facts about parsed documents), the executor
-    description well-formed (`wfCheck`: interfaces implemented covariantly — a guarantee of `schema.New`,
-    evaluated by C01's driver per case). C01's `closedCheck` is discharged here (`exec_seen_closed`). -/
+    document, distinct node positions and non-empty keys (facts about parsed documents). C01's hypotheses
+    about the schema (`closedCheck`, `wfCheck`: "guarantees of `schema.New`") are discharged here from
+    `Accepted` (`exec_seen_closed`, `exec_seen_wf`). -/
 theorem validated_answer_is_erased_reference (dec : Deco) (edec : ExecDeco) (S : Schema) (F : Feats)
     (hA : Accepted S = true) (hR : RootsUngated S = true) (hi : dec.intro = []) (hm : dec.metas = [])
     (a : C01.Ann) (D4 : C04.Document) (hvalid : C04.Spec.valid (seenBy dec S F) D4 = true)
     (hin : C04.InputOk (seenBy dec (erase S F) top) D4)
     (hpos : ((C01.toDoc a D4).nodes.map C01.Selection.pos).Nodup) (hkeys : ∀ s ∈ (C01.toDoc a D4).nodes, s.keyOK)
-    (hwf : (execSeen edec (erase S F) top).wfCheck = true)
     (opName : String) (root : C01.RVal) :
     ∃ resp r,
       C01.execute true (execSeen edec S F) (C01.toDoc a D4)
@@ -129,7 +138,8 @@ theorem validated_answer_is_erased_reference (dec : Deco) (edec : ExecDeco) (S :
   have hrel' := seen_schemaRel dec edec (erase S F) top (erase_accepted S F hA hR) (rootsUngated_erase hA hR) hi hm
   obtain ⟨resp, r, hex, hans, hag, huniq⟩ :=
     C01.exec_correct_validated _ _ hrel' a D4 hin hvalid' hpos hkeys
-      (closedCheck_execSeen edec (erase_accepted S F hA hR)) hwf opName root
+      (closedCheck_execSeen edec (erase_accepted S F hA hR)) (wfCheck_execSeen edec (erase_accepted S F hA hR))
+      opName root
   refine ⟨resp, r, ?_, hans, hag, huniq⟩
   rw [execute_erase edec S F hA]
   exact hex
@@ -159,8 +169,7 @@ example :
     C04.Spec.valid (seenBy dec0 demoV onlyA) docFlagQ = true ∧
     C04.InputOk (seenBy dec0 (erase demoV onlyA) top) docFlagQ ∧
     ((C01.toDoc ann0 docFlagQ).nodes.map C01.Selection.pos).Nodup ∧
-    (∀ s ∈ (C01.toDoc ann0 docFlagQ).nodes, s.keyOK) ∧
-    (execSeen demoE (erase demoV onlyA) top).wfCheck = true :=
-  ⟨by decide, C04.inputOk_of_hyp (by decide), by decide, by decide, by decide⟩
+    (∀ s ∈ (C01.toDoc ann0 docFlagQ).nodes, s.keyOK) :=
+  ⟨by decide, C04.inputOk_of_hyp (by decide), by decide, by decide⟩
 
 end ApiFu.C13
